@@ -56,13 +56,13 @@ func hasProp(props []string, id string) bool {
 }
 
 type obRecord struct {
-	Name    string  `json:"name"`
-	Kind    string  `json:"kind"`
-	Status  string  `json:"status"`
-	Solver  string  `json:"solver,omitempty"`
-	Seconds float64 `json:"seconds"`
-	Where   string  `json:"where,omitempty"`
-	Src     string  `json:"src,omitempty"`
+	Name    string   `json:"name"`
+	Kind    string   `json:"kind"`
+	Status  string   `json:"status"`
+	Solver  string   `json:"solver,omitempty"`
+	Seconds float64  `json:"seconds"`
+	Where   string   `json:"where,omitempty"`
+	Src     string   `json:"src,omitempty"`
 	Agree   []string `json:"also_unsat_by,omitempty"`
 }
 
@@ -156,7 +156,7 @@ func checkMain(args []string) int {
 		fmt.Printf("gowp: property %s has no obligations: broken check\n", id)
 		return 2
 	}
-	SolveAll(obs, work, timeout, thorough)
+	SolveFns(fcs, extra, work, timeout, thorough)
 
 	// ---- triage
 	known := loadKnown()
@@ -270,24 +270,24 @@ func checkMain(args []string) int {
 		"seed":        seed,
 		"level":       "proof",
 		"coverage": map[string]interface{}{
-			"obligations":                         len(obs),
-			"discharged":                          discharged,
+			"obligations": len(obs),
+			"discharged":  discharged,
 			"discharged_under_known_finding_exclusion": underExcl,
-			"checker_cmd":                         "bin/check " + id + " --tier " + *tier,
-			"trusted_base":                        sortedKeys(trusted),
-			"samples":                             samples,
-			"functions_under_contract":            uniq(funcs),
-			"derived_contracts_inlined":           uniq(derived),
-			"lemmas":                              nLemmas,
-			"discharged_by_backend":               bySolver,
-			"solver_seconds_total":                round3(solverTime),
-			"load_seconds":                        round3(loadS),
-			"per_obligation_timeout_s":            timeout.Seconds(),
-			"known_findings_reproduced":           kfRepro,
-			"obligation_list":                     records,
-			"engine_warnings":                     e.warnings,
-			"exhaustive":                          false,
-			"explanation":                         "weakest-precondition style VCs generated from go/ssa of /repo's working tree (build tag verif), one SMT query per obligation; unsat = discharged",
+			"checker_cmd":               "bin/check " + id + " --tier " + *tier,
+			"trusted_base":              sortedKeys(trusted),
+			"samples":                   samples,
+			"functions_under_contract":  uniq(funcs),
+			"derived_contracts_inlined": uniq(derived),
+			"lemmas":                    nLemmas,
+			"discharged_by_backend":     bySolver,
+			"solver_seconds_total":      round3(solverTime),
+			"load_seconds":              round3(loadS),
+			"per_obligation_timeout_s":  timeout.Seconds(),
+			"known_findings_reproduced": kfRepro,
+			"obligation_list":           records,
+			"engine_warnings":           e.warnings,
+			"exhaustive":                false,
+			"explanation":               "weakest-precondition style VCs generated from go/ssa of /repo's working tree (build tag verif), one SMT query per obligation; unsat = discharged",
 		},
 		"assumptions": general,
 		"wall_s":      round3(time.Since(t0).Seconds()),
